@@ -197,3 +197,65 @@ Theorem wire_roundtrip_len c used rest fuel : Inv c -> ccfg used = ccfg c ->
 Proof.
   intros I Hcf Hl Hd Hn Hf. apply wire_roundtrip; auto. apply data_len_bound; auto.
 Qed.
+
+(* ---------- fuel: the palette reader never runs out of it when it is at least the input length ---------- *)
+Lemma read32_consumes s v m rest : run_flat read32 s = FOk (v, m) rest -> (length rest < length s)%nat.
+Proof.
+  intros H. pose proof (read32_cap s) as Hcap. rewrite H in Hcap. destruct Hcap as [_ Hl].
+  assert (Hm : (1 <= m)%N).
+  { unfold read32 in H. rewrite run_flat_bind in H by apply read_var_robust. rewrite max_varint_len in H.
+    change (Z.to_N 5) with 5%N in H.
+    change (read_var 32 5 12 0 0) with
+      (ReadByte (fun b => let acc' := N.lor 0 ((N.shiftl (N.land b 127) (7 * 0)) mod 2^32) in
+                          if (N.land b 128 =? 0)%N then Ret (acc', (0 + 1)%N) else read_var 32 5 11 acc' (0 + 1)%N)) in H.
+    destruct s as [|b s']; [discriminate|]. cbn [run_flat] in H. cbv zeta in H.
+    destruct (N.land b 128 =? 0)%N.
+    - cbn [run_flat] in H. inversion H. lia.
+    - pose proof (read_var_cap 32 5 11 (N.lor 0 (N.shiftl (N.land b 127) (7 * 0) mod 2 ^ 32)) (0 + 1) s' ltac:(cbn; lia)) as Hc.
+      destruct (run_flat _ s') as [[u k] r| | |]; try discriminate. cbn [run_flat] in H. inversion H; subst. lia. }
+  unfold lenN in Hl. lia.
+Qed.
+
+Lemma read_vals_no_fuel : forall fuel s cnt acc n, (length s < fuel)%nat ->
+  run_flat (read_vals fuel cnt acc n) s <> FFuel.
+Proof.
+  induction fuel as [|f IH]; intros s cnt acc n Hf; [lia|].
+  cbn [read_vals]. destruct (cnt <=? 0); [cbn; discriminate|].
+  rewrite run_flat_bind by apply read32_robust.
+  destruct (run_flat read32 s) as [[v m] rest| | |] eqn:E; try discriminate.
+  - apply IH. apply read32_consumes in E. lia.
+  - pose proof (read32_cap s) as Hc. rewrite E in Hc. contradiction.
+Qed.
+
+Lemma pal_read_no_fuel fuel p s : (length s < fuel)%nat -> run_flat (pal_read fuel p) s <> FFuel.
+Proof.
+  intros Hf. destruct p as [v0|vals cap pb|vals cap pb|]; cbn [pal_read]; unfold read_sized.
+  - rewrite run_flat_bind by apply read32_robust. pose proof (read32_cap s) as Hc.
+    destruct (run_flat read32 s) as [[v m] rest| | |]; try contradiction; cbn; discriminate.
+  - rewrite run_flat_bind by apply read32_robust. pose proof (read32_cap s) as Hc.
+    destruct (run_flat read32 s) as [[v m] rest| | |] eqn:E; try contradiction; try discriminate.
+    destruct (v <? 0); [cbn; discriminate|]. rewrite run_flat_bind by apply read_vals_robust.
+    apply read32_consumes in E.
+    pose proof (read_vals_no_fuel fuel rest v [] 0%N ltac:(lia)) as Hn.
+    destruct (run_flat (read_vals fuel v [] 0%N) rest) as [[vs k] r| | |]; try contradiction; cbn; discriminate.
+  - rewrite run_flat_bind by apply read32_robust. pose proof (read32_cap s) as Hc.
+    destruct (run_flat read32 s) as [[v m] rest| | |] eqn:E; try contradiction; try discriminate.
+    destruct (v <? 0); [cbn; discriminate|]. rewrite run_flat_bind by apply read_vals_robust.
+    apply read32_consumes in E.
+    pose proof (read_vals_no_fuel fuel rest v [] 0%N ltac:(lia)) as Hn.
+    destruct (run_flat (read_vals fuel v [] 0%N) rest) as [[vs k] r| | |]; try contradiction; cbn; discriminate.
+  - cbn. discriminate.
+Qed.
+
+(* the container reader never runs out of fuel when the fuel is at least the input length *)
+Theorem pc_read_no_fuel fuel c s : (length s <= fuel)%nat -> run_flat (pc_read fuel c) s <> FFuel.
+Proof.
+  intros Hf. unfold pc_read. destruct s as [|b0 s]; [cbn; discriminate|]. cbn [run_flat]. cbv zeta.
+  rewrite run_flat_bind by apply pal_read_robust.
+  pose proof (pal_read_no_fuel fuel (cfg_create (ccfg c) (Z.of_N (b0 mod 256))) s ltac:(cbn [length] in Hf; lia)) as Hn.
+  destruct (run_flat (pal_read fuel _) s) as [[p1 n1] s1| | |]; try contradiction; try discriminate.
+  rewrite run_flat_bind by apply read_robust.
+  pose proof (read_total (cdata c) s1) as Ht.
+  destruct (run_flat (bs_read (cdata c)) s1) as [[d1 n2] s2| | |]; try contradiction; try discriminate.
+  destruct (bs_fix d1 _) as [d2 o]. destruct o; cbn; discriminate.
+Qed.
